@@ -203,6 +203,11 @@ def gen_lean(names, imports, lazy, modules):
 
 
 # ------------------------------------------------------------------ scenarios
+def fkey(op):
+    """key of the file an op is about: 'name' in the master library, 'user:name' in the library of another user"""
+    return op["name"] if not op.get("user") else "%s:%s" % (op["user"], op["name"])
+
+
 class Scenario:
     """A library (versions of files), a history of ops and the final load.
 
@@ -210,8 +215,9 @@ class Scenario:
     ops:   runner ops; 'edit' carries 'version'.
     """
 
-    def __init__(self, kind, files, ops, note=""):
+    def __init__(self, kind, files, ops, note="", full=False):
         self.kind, self.files, self.ops, self.note = kind, files, ops, note
+        self.full = full          # every load gets its own fresh process (failing-input search)
 
     def to_json(self):
         return {"kind": self.kind, "files": self.files, "ops": self.ops, "note": self.note}
@@ -229,8 +235,27 @@ class Scenario:
         cur = {n: 0 for n in self.files}
         for op in self.ops[:j]:
             if op["op"] == "edit":
-                cur[op["name"]] = op["version"]
+                cur[fkey(op)] = op["version"]
         return cur
+
+    def users(self):
+        return sorted({k.split(":", 1)[0] for k in self.files if ":" in k})
+
+    def sub(self, user):
+        """the scenario as seen in the library of one user (None: master): its files under plain names, the ops of
+        the other users replaced by no-ops (indices are kept)"""
+        if not self.users():
+            return self
+        pre = (user + ":") if user else None
+        files = {(k[len(pre):] if pre else k): v for k, v in self.files.items()
+                 if (k.startswith(pre) if pre else ":" not in k)}
+        ops = []
+        for op in self.ops:
+            if op["op"] == "noop" or (op.get("user") or None) != user:
+                ops.append({"op": "noop"})
+            else:
+                ops.append({k: v for k, v in op.items() if k != "user"})
+        return Scenario(self.kind, files, ops, self.note, self.full)
 
     def final_versions(self):
         return self.versions_at(len(self.ops))
@@ -248,6 +273,8 @@ class Scenario:
         final load otherwise"""
         if self.kind != "synth":
             return [len(self.ops) - 1]
+        if self.full:
+            return self.spec_ops()
         out, seen = [], 0
         for j, op in enumerate(self.ops):
             if op["op"] == "load" and not op.get("fault"):
@@ -266,8 +293,13 @@ def write_lib(root, files, versions, real_libdir, mtimes=None):
     os.makedirs(os.path.join(root, "logic"), exist_ok=True)
     for k, n in enumerate(sorted(files)):
         v = files[n][versions[n]]
-        dst = os.path.join(root, "library", n + ".json")
-        write_version(dst, n, v, real_libdir)
+        if ":" in n:
+            user, base = n.split(":", 1)
+            os.makedirs(os.path.join(root, "users", user), exist_ok=True)
+            dst = os.path.join(root, "users", user, base + ".json")
+        else:
+            base, dst = n, os.path.join(root, "library", n + ".json")
+        write_version(dst, base, v, real_libdir)
         t = (mtimes or {}).get(n, T0 + k)
         os.utime(dst, (t, t))
 
@@ -419,7 +451,7 @@ def gen_synth(rng, n):
             files[t] = [{"imports": imports[t], "content": content}]
         ops = []
         t_now = T0 + 1000
-        kind = rng.choice(["edit", "edit", "edit", "fault", "touch", "reload", "limit", "cycle", "dangling", "raise", "imports", "clash"])
+        kind = rng.choice(["edit", "edit", "edit", "fault", "touch", "reload", "limit", "cycle", "dangling", "raise", "imports", "clash", "relimit", "relimit"])
         final = rng.choice(tn[1:])
         first = rng.choice(tn)
         ops.append({"op": "load", "name": rng.choice([final, first, tn[-1]]), "limit": None, "fault": None})
@@ -478,6 +510,25 @@ def gen_synth(rng, n):
         elif kind == "dangling":
             files[rng.choice(tn)][0]["imports"].append("no_such_theory")
             ops.append({"op": "load", "name": tn[0], "limit": None, "fault": None})
+        elif kind == "relimit":
+            # the same limited load before and after edits that move / delete items of the theory
+            its0 = [(it["ty"], it["name"]) for it in files[final][0]["content"]]
+            lim0 = list(rng.choice(its0[1:] or its0))
+            ops = [{"op": "load", "name": final, "limit": lim0, "fault": None}]
+            for _ in range(rng.randint(1, 3)):
+                new = [copy.deepcopy(it) for it in files[final][-1]["content"]]
+                r = rng.random()
+                if r < 0.4:
+                    new.insert(rng.randint(0, len(new)), {"ty": "def.ax", "name": "c_%s_y%d" % (final, len(files[final])), "type": "bool"})
+                elif r < 0.75 and len(new) > 2:
+                    del new[rng.randrange(len(new))]
+                else:
+                    rng.shuffle(new)
+                files[final].append({"imports": imports[final], "content": new})
+                t_now += rng.choice([2, 9, -6000])
+                ops.append({"op": "edit", "name": final, "version": len(files[final]) - 1, "mtime": t_now})
+                ops.append({"op": "load", "name": final, "limit": lim0, "fault": None})
+            final_lim = lim0
         elif kind == "clash":
             # two theories that do not import each other declare the same constant; whoever imports both cannot load
             pairs = [(a, b) for a in tn for b in tn if a < b and a not in closure(imports, [b]) and b not in closure(imports, [a])]
@@ -504,7 +555,9 @@ def gen_synth(rng, n):
         lim = None
         its = [(it["ty"], it["name"]) for it in files[final][-1]["content"]]
         r = rng.random()
-        if kind == "limit" or r < 0.4:
+        if kind == "relimit":
+            lim = final_lim
+        elif kind == "limit" or r < 0.4:
             lim = rng.choice([list(rng.choice(its)), "start", ["thm.ax", "missing_c12"], list(rng.choice(its))])
         ops.append({"op": "load", "name": final, "limit": lim, "fault": None})
         out.append(Scenario("synth", files, ops, note))
@@ -610,6 +663,64 @@ def battery(rng):
                                        L("td"), L("td", [first["ty"], first["name"]]), L("tb", ["def.ax", "c_tb_1"]),
                                        L("td", ["thm.ax", "x_td_td_1"]), L("ta", ["def.ax", "c_tb_1"])],
                         "battery: limits (present, first item, last item, 'start', missing, item of another theory)"))
+    # 7b. the SAME limited load repeated around edits of the file: items inserted / deleted / moved in front of the
+    #     limit, changes behind it only, the limit item moved, deleted, renamed, and put back
+    lib = bat_lib(CHAIN)
+    base = lib["td"][0]["content"]
+    lim = ["thm.ax", "x_td_tc_0"]
+    at = next(i for i, it in enumerate(base) if it["name"] == lim[1])
+    newc = lambda n: {"ty": "def.ax", "name": n, "type": "bool"}  # noqa: E731
+    newt = lambda n, a: {"ty": "thm.ax", "name": n, "vars": {}, "prop": "%s ⟶ %s" % (a, a)}  # noqa: E731
+    variants = {
+        "insert-before": base[:1] + [newc("c_td_7")] + base[1:],
+        "delete-before": [it for i, it in enumerate(base) if i != at - 2],
+        "behind-only": base[:at + 1] + [newt("x_td_new", "c_td_0")] + base[at + 2:],
+        "moved-earlier": base[:3] + [base[at]] + base[3:at] + base[at + 1:],
+        "deleted": base[:at] + base[at + 1:],
+        "renamed": base[:at] + [dict(base[at], name=lim[1] + "_r")] + base[at + 1:],
+        "two-before": base[:2] + [newc("c_td_8"), newt("x_td_new2", "c_td_8")] + base[2:],
+    }
+    vidx = {}
+    for k, c in variants.items():
+        lib["td"].append({"imports": ["tc"], "content": copy.deepcopy(c)})
+        vidx[k] = len(lib["td"]) - 1
+    Ld = lambda: L("td", lim)  # noqa: E731
+    t = later
+    ops = [Ld()]
+    for k in ("insert-before", "delete-before", "behind-only", "moved-earlier", "deleted"):
+        t += 10
+        ops += [E("td", vidx[k], t), Ld()]
+    ops += [L("td")]
+    for k in (None, "renamed", "two-before"):
+        t += 10
+        ops += [E("td", 0 if k is None else vidx[k], t), Ld()]
+    ops += [L("td", [lim[0], lim[1] + "_r"]), L("td", "start"), Ld()]
+    out.append(Scenario("synth", lib, ops, "battery: the same limited load repeated around edits before / behind / of the limit item"))
+    # two limits of the same theory alternating around edits; 'start' and None around edits
+    l2 = ["def.ax", "c_td_1"]
+    out.append(Scenario("synth", copy.deepcopy(lib), [Ld(), L("td", l2), E("td", vidx["insert-before"], later + 1), L("td", l2), Ld(),
+                                                      E("td", vidx["delete-before"], later + 2), Ld(), L("td", l2),
+                                                      L("td", "start"), E("td", vidx["deleted"], later + 3), L("td", "start"), L("td"), L("td", l2), Ld()],
+                        "battery: two limits of one theory alternating around edits; limit='start' / None around edits"))
+    # the limit is at the top only; the edits are in the imports (direct and indirect), then in the middle theory with its own limit
+    lib2 = bat_lib(CHAIN)
+    lt = ["thm.ax", "x_tc_tb_0"]
+    out.append(Scenario("synth", lib2, [Ld(), L("tc", lt), E("tb", rng.choice([1, 2]), later), Ld(), L("tc", lt), E("ta", 2, later + 5), Ld(),
+                                        L("tc", lt), E("tc", 2, later + 9), L("tc", lt), Ld(), E("tc", 1, earlier), L("tc", lt), Ld()],
+                        "battery: limited loads repeated around edits of direct and indirect imports"))
+    # another user's library with the same theory names: limited loads of both interleaved with edits of either
+    ul = bat_lib(CHAIN)
+    both = dict(copy.deepcopy(lib))
+    for n in ul:
+        both["u1:" + n] = ul[n]
+    both["u1:td"] = [{"imports": ["tc"], "content": copy.deepcopy(variants["two-before"])},
+                     {"imports": ["tc"], "content": copy.deepcopy(variants["deleted"])},
+                     {"imports": ["tc"], "content": copy.deepcopy(base)}]
+    U = lambda op: dict(op, user="u1")  # noqa: E731
+    out.append(Scenario("synth", both, [U(Ld()), Ld(), U(E("td", 2, later + 1)), U(Ld()), Ld(), E("td", vidx["deleted"], later + 2), Ld(), U(Ld()),
+                                        U(E("td", 1, later + 3)), U(Ld()), U(L("td")), L("td"), U(E("ta", 1, later + 4)), U(L("td")), L("tb"),
+                                        U({"op": "reload"}), U(L("tb")), L("td", "start")],
+                        "battery: master and a second user (same theory names, different files): limited loads interleaved with edits"))
     # 8. timestamps without a change of content, load_metadata in between
     lib = bat_lib(DIAMOND)
     out.append(Scenario("synth", lib, [L("te"), T("ta", later), L("te"), T("tc", earlier), L("td"), R, L("te"),
@@ -697,7 +808,7 @@ def prepare(ctx, sc, idx, src):
         op = copy.deepcopy(op)
         if op["op"] == "edit":
             srcp = os.path.join(ctx.scratch, "h%s-edit%d.json" % (idx, j))
-            write_version(srcp, op["name"], sc.files[op["name"]][op["version"]], real_libdir)
+            write_version(srcp, op["name"], sc.files[fkey(op)][op["version"]], real_libdir)
             op["src"] = srcp
         hspec["ops"].append(op)
     fspecs = {}
@@ -719,7 +830,7 @@ def fresh_key(sc, j):
     if sc.kind == "real":
         return json.dumps(["real", op["name"], op["limit"]])
     vs = sc.versions_at(j)
-    return json.dumps([sc.kind, {n: sc.files[n][vs[n]] for n in sc.files}, op["name"], op["limit"]], sort_keys=True, ensure_ascii=False)
+    return json.dumps([sc.kind, {n: sc.files[n][vs[n]] for n in sc.files}, op["name"], op["limit"], op.get("user")], sort_keys=True, ensure_ascii=False)
 
 
 # ------------------------------------------------------------------ model side
@@ -1030,7 +1141,7 @@ def judge_spec(ctx, sc, j, op_rec, mv, which):
         what = "raises %s, the library says %s must be reported as a %s" % (res["type"], kind, REF_KIND_TYPE[kind])
     elif kind == "ok":
         names = op_rec.get("names")
-        cur = sc.versions_at(j) if sc.kind != "real" else {n: 0 for n in mv.names}
+        cur = mv.sc.versions_at(j) if sc.kind != "real" else {n: 0 for n in mv.names}
         loaded = {(n, i) for n, i in exp[0] + exp[1]}
         want, others = set(), set()
         scope = mv.names if sc.kind == "synth" else [fin["name"]]       # real theories: only the own items are negated
@@ -1068,9 +1179,9 @@ def stale_imports_class(sc, j=None):
     cur = {n: 0 for n in sc.files}
     for op in sc.ops[:len(sc.ops) if j is None else j]:
         if op["op"] == "edit":
-            if sc.files[op["name"]][op["version"]]["imports"] != sc.files[op["name"]][cur[op["name"]]]["imports"]:
+            if sc.files[fkey(op)][op["version"]]["imports"] != sc.files[fkey(op)][cur[fkey(op)]]["imports"]:
                 pending = True
-            cur[op["name"]] = op["version"]
+            cur[fkey(op)] = op["version"]
         elif op["op"] == "reload":
             pending = False
     return pending
@@ -1139,7 +1250,9 @@ def correspond(ctx, sc, h, model_out, mv, label):
             bad.append("op %d %s: modules executed impl %s model %s" % (j, sc.ops[j], po["mods"], mo["mods"]))
         if sc.ops[j]["op"] == "load":
             ht, mt = po.get("thy_items"), mo["thy"]
-            if full and ht is not None and mt is not None:
+            if po["res"] != "ok":
+                pass            # what theory.thy holds after an exception is not specified
+            elif full and ht is not None and mt is not None:
                 if ht != mt:
                     k = next((k for k in range(min(len(ht), len(mt))) if ht[k] != mt[k]), min(len(ht), len(mt)))
                     bad.append("op %d %s: theory items differ at position %d: impl %s model %s (lengths %d / %d)" % (
@@ -1158,7 +1271,7 @@ def correspond(ctx, sc, h, model_out, mv, label):
     return True
 
 
-def run_scenarios(ctx, scs, src, label, zygote=False):
+def run_scenarios(ctx, scs, src, label, zygote=False, search=True):
     """Runs every scenario (one history process + one fresh process per judged load, in parallel), judges every
     judged load against the fresh process and the reference loader, and compares every step with the model.
     zygote=True: the processes are forked from one process that has just imported the loader (synthetic battery);
@@ -1199,20 +1312,22 @@ def run_scenarios(ctx, scs, src, label, zygote=False):
             if "final" in r:
                 for n, fl in r["final"]["flags"].items():
                     flags.setdefault(n, fl)
-        mv = ModelView(sc, src, flags)
-        views.append(mv)
-        lines.append(mv.line(h.get("pre", []) if "error" not in h else []))
+        vs = {u: ModelView(sc.sub(u), src, flags) for u in [None] + sc.users()}
+        views.append(vs)
+        lines.append(vs[None].line(h.get("pre", []) if "error" not in h else []))
     out = ctx.lean_driver(EXE, lines) if lines else []
     nviol = 0
+    broken_scs = []
     for idx, sc in enumerate(scs):
         h = results[("h", idx)]
         lab = "%s-%d" % (label, idx)
-        kinds = [o["op"] + (":fault" if o.get("fault") else "") for o in sc.ops[:-1]]
+        kinds = [o["op"] + (":fault" if o.get("fault") else "") + (":user" if o.get("user") else "") for o in sc.ops[:-1]]
         ctx.case(sc.key(), nontrivial=len(sc.ops) >= 2)
         ctx.count("%s:%s" % (sc.kind, "+".join(sorted(set(kinds))) or "fresh"))
         if "error" in h:
             ctx.broken("runner:c12:" + lab, "history run: %s" % h.get("error"))
             continue
+        before = len(ctx.violations) + len(ctx.known_hits)
         for j in sc.judged_ops():
             f = results[("f", idx, j)]
             if "error" in f:
@@ -1221,16 +1336,62 @@ def run_scenarios(ctx, scs, src, label, zygote=False):
             ctx.count("load-vs-fresh-process:" + coarse(h["ops"][j]["res"]))
             if judge(ctx, sc, j, h["ops"][j], f["ops"][0], lab):
                 nviol += 1
-            if judge_spec(ctx, sc, j, f["ops"][0], views[idx], "fresh"):
+            if judge_spec(ctx, sc, j, f["ops"][0], views[idx][sc.ops[j].get("user")], "fresh"):
                 nviol += 1
         for j in sc.spec_ops():
             ctx.count("load-vs-reference-loader")
-            if judge_spec(ctx, sc, j, h["ops"][j], views[idx], "history"):
+            if judge_spec(ctx, sc, j, h["ops"][j], views[idx][sc.ops[j].get("user")], "history"):
                 nviol += 1
-        correspond(ctx, sc, h, out[idx] if out else None, views[idx], lab)
+        if sc.users():
+            ctx.count("not-modelled:other-users")        # the model has one user; oracles (a) and (c) only
+        elif not correspond(ctx, sc, h, out[idx] if out else None, views[idx][None], lab):
+            if len(ctx.violations) + len(ctx.known_hits) == before and sc.kind == "synth" and search:
+                broken_scs.append(sc)
     if out is None:
         ctx.broken("correspondence:c12:driver", "model driver unavailable")
+    if broken_scs:
+        # failing-input search: the model and the implementation disagree on a history on which no oracle objected --
+        # run amplified histories (earlier loads repeated after every change, further edits of the theories loaded
+        # with a limit) with EVERY load judged against its own fresh process
+        ctx.log("%s: correspondence broke on %d histories without a failing input; searching with amplified histories" % (
+            label, len(broken_scs)))
+        amp = [amplify(sc) for sc in broken_scs[:6]]
+        ctx.coverage["disagreements_checked"] += len(amp)
+        nviol += run_scenarios(ctx, amp, src, label + "-search", zygote=zygote, search=False)
     return nviol
+
+
+def amplify(sc):
+    """A history derived from `sc` for the failing-input search: after every change of state all earlier distinct
+    loads are repeated; then every theory that was loaded is replaced by each of its other versions in turn (with
+    later and later timestamps) and its loads are repeated again.  Every load is judged against a fresh process."""
+    ops, seen = [], []
+
+    def sig(op):
+        return json.dumps([op["name"], op["limit"], op.get("user")])
+    tmax = max([op["mtime"] for op in sc.ops if "mtime" in op] + [T0 + 9000])
+    for op in sc.ops:
+        ops.append(copy.deepcopy(op))
+        if op["op"] == "load":
+            if not op.get("fault") and sig(op) not in [sig(x) for x in seen]:
+                seen.append(dict(copy.deepcopy(op), fault=None))
+        elif op["op"] in ("edit", "touch", "reload"):
+            ops += copy.deepcopy(seen)
+    cur = sc.final_versions()
+    for op0 in list(seen):
+        k = fkey(op0)
+        if k not in sc.files:
+            continue
+        for v in range(len(sc.files[k])):
+            if v == cur.get(k) or sc.files[k][v]["imports"] != sc.files[k][cur[k]]["imports"]:
+                continue
+            tmax += 50
+            ops.append({"op": "edit", "name": op0["name"], "version": v, "mtime": tmax, **({"user": op0["user"]} if op0.get("user") else {})})
+            cur[k] = v
+            ops += [copy.deepcopy(x) for x in seen if fkey(x) == k or True][:8]
+        if len(ops) > 60:
+            break
+    return Scenario(sc.kind, copy.deepcopy(sc.files), ops, sc.note + " [amplified for the failing-input search]", full=True)
 
 
 # ------------------------------------------------------------------ entry points
@@ -1257,7 +1418,11 @@ def run(ctx):
         "with its original mtime; dangling import / cycle / both with 'failed load, unrelated theory, broken theory, load_metadata'; "
         "dangling import and cycle introduced by edits; loads interrupted at items of an import / the theory / the root; duplicate "
         "constant; limits (present, first, last, start, missing, foreign); os.utime forwards / backwards / unchanged; imports edited "
-        "with and without load_metadata. EVERY load of a synthetic scenario is compared with its own fresh process (files as they "
+        "with and without load_metadata; the SAME LIMITED LOAD repeated around edits that insert / delete / move items in front of "
+        "the limit, change only what is behind it, move / delete / rename the limit item and put it back; two limits of one theory "
+        "and limit='start'/None alternating around edits; limited loads at the top with edits in direct and indirect imports; a "
+        "second user's library with the same theory names, limited loads of both users interleaved with edits of either (oracles "
+        "(a) and (c) only: the model has one user). EVERY load of a synthetic scenario is compared with its own fresh process (files as they "
         "are at that step), with the reference loader and with the Lean model (outcome, files parsed, theory items). "
         "RANDOM REMAINDER: a case is one scripted history ending in load_theory(name, limit), run in its own Python process and compared with a "
         "fresh process doing only the final load and with the Lean model: real library (prior loads with limits, imports of "
@@ -1335,6 +1500,10 @@ MANIFEST = {
             "indirect_edit_older_mtime_example); these are judged by the deterministic battery of scripted histories. "
             "FUEL: every theorem admits the outcome 'the model ran out of fuel'; no theorem says that some amount of fuel "
             "suffices (the model's termination is not proved); every run confirms on its own histories that fuel 400 sufficed. "
+            "FAILING-INPUT SEARCH: when the model correspondence breaks on a synthetic history on which no oracle objected, an "
+            "amplified history (every earlier load repeated after every change, the loaded theories replaced by their other "
+            "versions in turn) is run with every load judged against its own fresh process. What theory.thy holds AFTER an "
+            "exception is not compared. "
             "Tables (import graph, lazy imports, module -> load_theory calls) are regenerated from the sources each run and "
             "checked. Tie to logic/basic.py: scripted histories in subprocesses; every load is judged (a) against a fresh "
             "process on the files of that moment, (c) against a reference loader on observable names and exception classes "
